@@ -469,7 +469,7 @@ def eval_C07(doc):
         if o.obs is None:
             prev = None
             continue
-        if o.kind == "widen" and prev is not None:
+        if o.kind == "widen" and prev is not None and sess.k is not None:
             k = sess.k
             ip = prev.obs["idx"] if not prev.obs["empty"] else -1
             io = o.obs["idx"] if not o.obs["empty"] else -1
@@ -511,7 +511,7 @@ def eval_C08(doc):
         return result(vs, doc, inc, stats={"aborted_by_exception": 1})
     c = compare(a.obs, b.obs)
     if c.startswith("diff"):
-        if c != "diff:idx" and tie_upstream(doc["cfg"], inc, one):
+        if tie_upstream(doc["cfg"], inc, one):
             stats["inconclusive_tie_upstream"] = 1
         else:
             vs.append(oa.V("C08/incremental-differs/" + c, "incremental=%r oneshot=%r" % (
@@ -559,7 +559,7 @@ def eval_C10(doc):
             return result(vs, doc, a, stats={"aborted_by_exception": 1})
         c = compare(oa_.obs, ob.obs)
         if c.startswith("diff"):
-            if c != "diff:idx" and tie_upstream(doc["cfg"], a, b):
+            if tie_upstream(doc["cfg"], a, b):
                 stats["inconclusive_tie_upstream"] = 1
             else:
                 vs.append(oa.V("C10/relist/" + c, "%r vs %r" % ((oa_.obs["idx"], oa_.obs["bestE"], oa_.obs["tail"]),
@@ -731,6 +731,25 @@ def transform_C16(doc):
     return d2, ren
 
 
+def threshold_fragile(cfg, sess, rel=1e-9):
+    """Is some live lattice entry within rounding distance of a cut-off (max_dist, max_dist_init,
+    min_prob_norm)?  Such a decision is made on the last bits of a float (fragility guard, DESIGN 4)."""
+    m = sess.matcher
+    if m is None or not m.lattice:
+        return False
+    md, mdi, mpn = cfg.get("max_dist"), cfg.get("max_dist_init"), cfg.get("min_prob_norm")
+    lpn = math.log(mpn) if mpn else None
+    for ci, col in m.lattice.items():
+        for layer in col.o:
+            for e in layer.values():
+                for thr in (md, mdi if (ci == 0 and e.obs_ne == 0) else None):
+                    if thr and abs(e.dist_obs - thr) <= rel * (1 + thr):
+                        return True
+                if lpn is not None and abs(e.logprob / e.length - lpn) <= rel * (1 + abs(lpn)):
+                    return True
+    return False
+
+
 def eval_C16(doc):
     vs = []
     stats = {}
@@ -763,8 +782,12 @@ def eval_C16(doc):
         c = compare(oa_.obs, oo, rel=rel if kind != "translate" else 1e-7, abs_=1e-12 if kind != "translate" else 1e-9,
                     path_map=ren)
         if c.startswith("diff"):
-            if c != "diff:idx" and tie_upstream(doc["cfg"], a, b):
+            if tie_upstream(doc["cfg"], a, b):
                 stats["inconclusive_tie_upstream"] = 1
+            elif kind in ("scale", "swap", "translate") and (threshold_fragile(d1["cfg"], a) or threshold_fragile(d2["cfg"], b)):
+                # a state lies within rounding distance of a cut-off (e.g. exactly max_dist away on a grid):
+                # the transformation changes the last bits of the distance and the exact comparison flips
+                stats["fragile"] = stats.get("fragile", 0) + 1
             elif kind in ("scale", "swap") and (near["a"] or near["b"]):
                 # listed finding: the transformation changes last bits of a probability and width pruning
                 # (exact ties only) turns that into another candidate set
